@@ -126,6 +126,10 @@ impl Batch {
         e.1 += 1;
     }
     fn emit(self, idx: u64, class: &str, d: J) {
+        if self.unknown > 0 && self.unknown * 2 <= self.evals {
+            // some (not most) cases met an encoding the interpreter does not know: say so
+            out::outcome(idx, &format!("{}/unknown-encodings", class), Verdict::Inconclusive, "decoder-does-not-know-the-encoding", &J::new().n("cases", self.unknown));
+        }
         if self.viols.is_empty() {
             if self.unknown * 2 > self.evals {
                 out::outcome(idx, class, Verdict::Inconclusive, "decoder-does-not-know-the-encoding", &d);
@@ -430,7 +434,9 @@ fn c16_one(b: &mut Batch, words: &mut Words, notes: &mut BTreeMap<String, u64>, 
                 arm32::End::TooLong => b.fail("entry-sequence-does-not-branch", mk(J::new().s("path", &path_s))),
                 arm32::End::Arrived { addr, thumb: th } => {
                     match w.literal {
-                        None => b.fail("no-literal-load", mk(J::new().s("path", &path_s))),
+                        // a direct PC-relative branch has no literal; it is judged on where (and in which
+                        // state) it arrives
+                        None => {}
                         Some((la, lv)) => {
                             if lv != fake {
                                 b.fail("literal-load-reads-the-wrong-word", mk(J::new().x("literal_address", la as usize).x("value_read", lv as usize).s("path", &path_s)));
@@ -466,7 +472,7 @@ fn run_c16(ctx: &Ctx) {
     let cases: [(&str, bool, u32); 3] = [("a32", false, 0), ("t32-aligned", true, 0), ("t32-2mod4", true, 2)];
     let mut idx = 0u64;
     for (name, thumb, rem) in cases {
-        for part in ["boundaries", "random", "boolean"] {
+        for part in ["boundaries", "random", "near", "boolean"] {
             if ctx.mine(idx) {
                 let class = format!("{}/{}/{}", name, part, if cfg!(debug_assertions) { "dev" } else { "release" });
                 out::intent(idx, &class, &J::new().s("crash_sig", name));
@@ -483,6 +489,20 @@ fn run_c16(ctx: &Ctx) {
                                     c16_one(&mut b, &mut words, &mut notes, fix(e), thumb, (f & !1) | fthumb, rng.next());
                                 }
                             }
+                        }
+                    }
+                    "near" => {
+                        // fakes close to the entry (the same image): within +-1 KiB, +-1 MiB, +-16 MiB, +-32 MiB
+                        // and just beyond, in both instruction-set states
+                        for _ in 0..nrand / 12 {
+                            let e = fix(((rng.next() as u32) & 0x7FFF_FFF0) | 0x1000_0000);
+                            let span: i64 = *rng.pick(&[1 << 10, 1 << 20, 1 << 24, (1 << 25) - 8, (1 << 25) + 64, 1 << 26]);
+                            let d = rng.range(-span, span) & !1;
+                            let f = ((e as i64 + d) as u32 & !1).max(2) | (rng.below(2) as u32);
+                            if (f as i64 - e as i64).abs() < 16 {
+                                continue;
+                            }
+                            c16_one(&mut b, &mut words, &mut notes, e, thumb, f, rng.next());
                         }
                     }
                     "random" => {
